@@ -190,6 +190,87 @@ func taskLookupOf(c *Ctx, fieldRead ssa.Value) *ssa.Lookup {
 	return nil
 }
 
+// lookedUpPairAtCallers: pTask and pName are parameters of the same (recursive, hence not inlined) function; at every call site
+// the task argument comes from a lookup in SpokFile.Tasks whose key is the name argument.
+func (c *Ctx) lookedUpPairAtCallers(pTask, pName *ssa.Parameter) bool {
+	f := pTask.Parent()
+	if f == nil || pName.Parent() != f {
+		return false
+	}
+	it, in := -1, -1
+	for j, q := range f.Params {
+		if q == pTask {
+			it = j
+		}
+		if q == pName {
+			in = j
+		}
+	}
+	sites := c.callersOf(f)
+	if it < 0 || in < 0 || len(sites) == 0 {
+		return false
+	}
+	for _, cs := range sites {
+		args := cs.Common().Args
+		if it >= len(args) || in >= len(args) {
+			return false
+		}
+		sl := c.newSlicer()
+		sl.depth = 0
+		var lk *ssa.Lookup
+		for _, v := range sl.run(args[it]).order {
+			if l, ok := v.(*ssa.Lookup); ok && isFieldLoad(l.X, "file.SpokFile.Tasks") {
+				lk = l
+				break
+			}
+		}
+		if lk == nil || !samePlace(lk.Index, args[in]) {
+			return false
+		}
+	}
+	return true
+}
+
+// paramOrigin: v is (a field of / a load of) exactly one parameter.
+func paramOrigin(v ssa.Value) *ssa.Parameter {
+	for i := 0; i < 8 && v != nil; i++ {
+		switch x := v.(type) {
+		case *ssa.Parameter:
+			return x
+		case *ssa.Field:
+			v = x.X
+		case *ssa.FieldAddr:
+			v = x.X
+		case *ssa.UnOp:
+			if x.Op != token.MUL {
+				return nil
+			}
+			v = x.X
+		case *ssa.Alloc:
+			// a parameter spilled to a local
+			var st ssa.Value
+			n := 0
+			for _, ref := range valueReferrers(x) {
+				if s, ok := ref.(*ssa.Store); ok && s.Addr == ssa.Value(x) {
+					st = s.Val
+					n++
+				}
+			}
+			if n != 1 {
+				return nil
+			}
+			v = st
+		default:
+			os := origins(v)
+			if len(os) != 1 || os[0] == v {
+				return nil
+			}
+			v = os[0]
+		}
+	}
+	return nil
+}
+
 func ruleGR2(c *Ctx) *rule {
 	r := &rule{ID: "GR2", Engine: "E3", Floor: 1,
 		Statement: "at every Graph.AddEdge(from, to): from is an element of t.TaskDependencies and to is the name under which t was looked up (or t.Name)",
@@ -228,6 +309,24 @@ func ruleGR2(c *Ctx) *rule {
 				if da, ok := deps[0].(*ssa.FieldAddr); ok && fa.X == da.X {
 					okTo = true
 				}
+			}
+		}
+		if !okTo && lk != nil {
+			// the pair travels through a record (`dependency{before: dep, after: name}` collected first, edges added later): the
+			// `to` end derives from the very key the task was looked up under
+			ts := c.newSlicer()
+			ts.depth = 0
+			tres := ts.run(to)
+			if k := originsOne(lk.Index); tres.has(k) || tres.has(lk.Index) {
+				if _, isConst := k.(*ssa.Const); !isConst {
+					okTo = true
+				}
+			}
+		}
+		if !okTo {
+			// the task and its name are parameters of a recursive function: every caller passes a task looked up under that name
+			if pt, pn := paramOrigin(deps[0]), paramOrigin(to); pt != nil && pn != nil && pt != pn && c.lookedUpPairAtCallers(pt, pn) {
+				okTo = true
 			}
 		}
 		if okTo {
@@ -463,12 +562,28 @@ func ruleGR4(c *Ctx) *rule {
 					continue
 				}
 				verdict := ""
+				type missEdge struct {
+					iff *ssa.If
+					idx int
+				}
+				var tests []missEdge
 				for _, ref := range valueReferrers(okv) {
-					iff, isIf := ref.(*ssa.If)
-					if !isIf {
-						continue
+					switch x := ref.(type) {
+					case *ssa.If:
+						tests = append(tests, missEdge{x, 1})
+					case *ssa.UnOp:
+						// `case !ok:` / `if !ok`: the miss is the true edge of the negation
+						if x.Op == token.NOT {
+							for _, rr := range valueReferrers(x) {
+								if i2, isIf := rr.(*ssa.If); isIf {
+									tests = append(tests, missEdge{i2, 0})
+								}
+							}
+						}
 					}
-					if good, why := c.edgeEndsInError(edge{iff.Block(), 1}); !good {
+				}
+				for _, t := range tests {
+					if good, why := c.edgeEndsInError(edge{t.iff.Block(), t.idx}); !good {
 						verdict = why
 					} else if verdict == "" {
 						verdict = "ok"
@@ -537,6 +652,10 @@ func ruleGR4(c *Ctx) *rule {
 			}
 		}
 		if lk == nil {
+			if pt, pn := paramOrigin(args[2]), paramOrigin(args[1]); pt != nil && pn != nil && pt != pn && c.lookedUpPairAtCallers(pt, pn) {
+				r.ok(key, c.ipos(site), "the task and its name are parameters; every caller passes a task looked up under that name (the lookups are checked above)")
+				continue
+			}
 			r.bad(key, c.ipos(site), "the task stored in the vertex does not come from SpokFile.Tasks")
 			continue
 		}
